@@ -505,6 +505,13 @@ func downloadImpl(ctx context.Context, name, sha3_384, downloadURL string, user 
 			if _, err := w.Seek(0, io.SeekStart); err != nil {
 				return err
 			}
+			// what was written so far may be longer than what is about
+			// to be received, do not leave a stale tail behind
+			if t, ok := w.(interface{ Truncate(size int64) error }); ok {
+				if err := t.Truncate(0); err != nil {
+					return err
+				}
+			}
 			h = crypto.SHA3_384.New()
 			resume = 0
 		}
